@@ -14,6 +14,7 @@ rmdir "$WT"; git -C /repo worktree add -q --detach "$WT" HEAD || exit 3
 if ! git -C "$WT" apply "$SRC/patch.diff"; then echo "SEEDTEST $SRC: patch does not apply"; exit 3; fi
 if "$VERIF_DIR/baseline.sh" "$WT" >"$WT.baseline" 2>&1; then echo "SEEDTEST suite: passes with the change ($(head -1 "$WT.baseline"))"; else echo "SEEDTEST suite: FAILS with the change"; head -5 "$WT.baseline"; fi
 rm -f "$WT.baseline"
+export VERIF_STOP_AT="${VERIF_STOP_AT:-5}"
 export JD_REPO="$WT" VERIF_EVIDENCE_DIR="$VERIF_DIR/.work/seed-ev-$TAG" VERIF_REPLAY_DIR="$VERIF_DIR/.work/seed-ev-$TAG/replays"
 mkdir -p "$VERIF_EVIDENCE_DIR"
 for C in "$@"; do
